@@ -470,3 +470,24 @@ mutant("C06-M17", "C06", "R06b", "precompute skipped when a scenario suspends th
 mutant("C01-M16", "C01", "R01h", "junction inflow accumulator aliases the first inlink's storage", M, "JunctionCompartment.balance", "        net_inflow = 0\n        if self.duration_group:\n            for link in self.inlinks:\n                net_inflow += link._vals[:, ti]  # If part of a duration group, get the flow from TimedLink._vals", "        net_inflow = 0\n        if self.duration_group:\n            net_inflow = self.inlinks[0]._vals[:, ti]\n            for link in self.inlinks:\n                net_inflow += link._vals[:, ti] * (link is not self.inlinks[0])")
 mutant("C02-M13", "C02", "R02a", "timed rescale decided from row 0 only", M, "TimedCompartment.resolve_outflows", "        rescale = np.divide(1, total_outflow, out=np.ones_like(total_outflow), where=total_outflow > 1)", "        if total_outflow[0] > 1:\n            rescale = 1 / total_outflow\n        else:\n            rescale = np.ones_like(total_outflow)")
 mutant("C07-M10", "C07", "R07e", "denominator of a fraction characteristic without meta_y_factor", M, "Population.initialize_compartments", "denom_par.y_factor[self.name] * denom_par.meta_y_factor", "denom_par.y_factor[self.name]")
+
+# ---- rules added after round 3 of seeded changes
+EX = "atomica/excel.py"
+reintro("C16-M17", "C16", "R16g", "81c2439", "TimeDependentConnections.write decides the cell columns from the raw flags")
+mutant("C16-M18", "C16", "R16g", "TDVE.write decides the uncertainty cells from the raw flag", EX, "TimeDependentValuesEntry.write", "            if write_uncertainty:", "            if self.write_uncertainty:")
+mutant("C16-M19", "C16", "R16h", "reader forces the units column off when the sheet had none", EX, "TimeDependentValuesEntry.from_rows", 'tdve.write_units = True if "units" in headings else None', 'tdve.write_units = True if "units" in headings else False')
+mutant("C16-M20", "C16", "R16h", "reader forces the uncertainty column off (connections)", EX, "TimeDependentConnections.from_tables", 'tdc.write_uncertainty = True if "uncertainty" in headings else None', 'tdc.write_uncertainty = "uncertainty" in headings')
+twin("C16-T4", "C16", "reader flag written as a conditional statement", EX, "TimeDependentValuesEntry.from_rows", 'tdve.write_units = True if "units" in headings else None', 'tdve.write_units = None\n        if "units" in headings:\n            tdve.write_units = True')
+mutant("C15-M13", "C15", "R15e", "bounds looked up at the first year not after t", OP, "TotalSpendConstraint.get_hard_constraint", "idx = np.where(adjustment.t == t)[0][0]", "idx = np.where(adjustment.t <= t)[0][0]")
+mutant("C15-M14", "C15", "R15e", "bounds always taken from the first adjustable", OP, "TotalSpendConstraint.get_hard_constraint", "adjustable = adjustment.adjustables[idx]", "adjustable = adjustment.adjustables[0]")
+twin("C15-T3", "C15", "equality written the other way round", OP, "TotalSpendConstraint.get_hard_constraint", "idx = np.where(adjustment.t == t)[0][0]", "idx = np.where(t == adjustment.t)[0][0]")
+mutant("C17-M10", "C17", "R17e", "interaction outcome stored with the baseline added", PR, "Covout.sample", "self._interactions[k] = v + self.sigma * np.random.randn(1)[0]", "self._interactions[k] = v + self.baseline + self.sigma * np.random.randn(1)[0]")
+mutant("C17-M11", "C17", "R17e", "program outcome scaled instead of shifted", PR, "Covout.sample", "self.progs[k] = v + self.sigma * np.random.randn(1)[0]", "self.progs[k] = v * 1.01 + self.sigma * np.random.randn(1)[0]")
+mutant("C17-M12", "C17", "R17e", "per-point draw loses the old value", U, "TimeSeries.sample", "new.vals[i] = v + delta", "new.vals[i] = delta")
+twin("C17-T4", "C17", "noise first, then the value; via a local", PR, "Covout.sample", "self.progs[k] = v + self.sigma * np.random.randn(1)[0]", "shift = self.sigma * np.random.randn(1)[0]\n            self.progs[k] = shift + v")
+mutant("C18-M19", "C18", "R18d", "cycle edge skipped for cross-type dependencies", FW, "ProjectFramework._validate_parameters", '                        if self.pars.at[dep, "is derivative"] != "y":', '                        if self.pars.at[dep, "population type"] != par["population type"]:\n                            pass\n                        elif self.pars.at[dep, "is derivative"] != "y":')
+mutant("C18-M20", "C18", "R18d", "cycle test only when there are transitions", FW, "ProjectFramework._validate_parameters", "        if not nx.dag.is_directed_acyclic_graph(G):", "        if self.transitions and not nx.dag.is_directed_acyclic_graph(G):")
+twin("C18-T3", "C18", "self-reference test with the operands swapped", FW, "ProjectFramework._validate_parameters", "                            if dep == par_name:", "                            if par_name == dep:")
+mutant("C20-M9", "C20", "R20e", "coverage denominator starts as the compartment's own array", RS, "Result.get_coverage", "num_eligible[prog.name] = vals.copy()", "num_eligible[prog.name] = vals")
+mutant("C20-M10", "C20", "R20e", "equivalent allocation hands out the eligible array", RS, "Result.get_equivalent_alloc", "equivalent_alloc[prog] = uc * num_costed_coverage", "equivalent_alloc[prog] = num_eligible[prog]")
+twin("C20-T3", "C20", "np.array(vals) instead of vals.copy()", RS, "Result.get_coverage", "num_eligible[prog.name] = vals.copy()", "num_eligible[prog.name] = np.array(vals, dtype=float)")
